@@ -154,7 +154,7 @@ Record wfH (G : hist) : Prop := {
   wf_reads : forall t r e v, lookup t G = Some r -> In (e, v) (h_reads r) ->
       In e (h_rs r) /\
       match v with
-      | Own => True
+      | Own => In e (h_ws r)
       | Ver x => h_iso r <> ReadCommitted -> x = ver_at G e (h_start r)
       end;
   wf_rs : forall t r e, lookup t G = Some r -> In e (h_rs r) -> exists v, In (e, v) (h_reads r)
@@ -516,15 +516,15 @@ Proof.
   - intros t r' e v L Hin. apply LK in L. destruct L as [(r & L & RS)|(_ & i & _ & _ & ->)]; [|destruct Hin].
     destruct (wf_bounds G W t r L) as [B1 _].
     assert (VA : ver_at G' e (h_start r) = ver_at G e (h_start r)) by (apply hstep_ver_at; [assumption|lia]).
-    destruct RS; cbn [h_add_write h_add_read h_set_end h_reads h_rs h_iso h_start] in *;
+    destruct RS; cbn [h_add_write h_add_read h_set_end h_reads h_rs h_ws h_iso h_start] in *;
       try (destruct (wf_reads G W t r e v L Hin) as [R1 R2]; split; [assumption|];
-           destruct v; [exact I|]; intro Hrc; rewrite VA; auto).
+           destruct v; [try assumption; apply add_In; right; assumption|]; intro Hrc; rewrite VA; auto).
     destruct Hin as [Hin|Hin].
     + inversion Hin. subst e0. split; [apply add_In; left; reflexivity|].
-      destruct (mem e (h_ws r)); [exact I|]. intro Hrc. rewrite VA.
+      destruct (mem e (h_ws r)) eqn:M; [apply mem_In; assumption|]. intro Hrc. rewrite VA.
       unfold view_epoch. destruct (h_iso r); congruence.
     + destruct (wf_reads G W t r e v L Hin) as [R1 R2]. split; [apply add_In; right; assumption|].
-      destruct v; [exact I|]. intro Hrc. rewrite VA. auto.
+      destruct v; [assumption|]. intro Hrc. rewrite VA. auto.
   - intros t r' e L Hin. apply LK in L. destruct L as [(r & L & RS)|(_ & i & _ & _ & ->)]; [|destruct Hin].
     destruct RS; cbn [h_add_write h_add_read h_set_end h_reads h_rs] in *;
       try (apply (wf_rs G W t r e L Hin)).
